@@ -174,13 +174,16 @@ def c01(tier, seed):
         t2 = session("c01-honest-ring", PskMode="single", PubLens=[32], Variants=["tr"])
         r2 = replay("C01", t2, seed, 1, backends="mix-sample")
         t3, r3 = odd_names_leg("C01", tier, seed)
+        t4 = session("c01-multipsk", PskMode="all", Variants=["tr"], PatSet=["N", "K", "NN", "XX", "IK", "X1X1", "KX1", "I1K1"])
+        r4 = replay("C01", t4, seed, 1)
     else:
+        t4 = r4 = None
         t = session("c01-honest", PskMode="all", Profiles=["small", "zero"])
         r = replay("C01", t, seed, 0, threads=14)
         t2 = session("c01-honest-ring", PskMode="all", PubLens=[32])
         r2 = replay("C01", t2, seed, 2, backends="mix", threads=14)
         t3, r3 = odd_names_leg("C01", tier, seed)
-    return merge("model_checking", [t, t2, t3], [r, r2, r3], RULE_D1 +
+    return merge("model_checking", [x for x in [t, t2, t3, t4] if x], [x for x in [r, r2, r3, r4] if x], RULE_D1 +
                  "a third run names the protocol with a non-canonical spelling of its psk numerals (the verbatim name is hashed); "
                  "a second run assigns ring-backed resolvers to the endpoints (fallback(ring,default), fallback(default,ring), "
                  "default in every mix), since a conforming endpoint must interoperate whatever its backend; "
@@ -221,7 +224,11 @@ def c07(tier, seed):
         t3 = session("c07-latepsk", PskMode="only", LatePsk=True, PubLens=[32], InitPads=[False], Variants=["tr"],
                      TrafficMode="short", PatSet=["NN", "XX", "IK", "N", "X1X1", "K1K"])
         r3 = replay("C07", t3, seed, 1)
-        tl, rl = [t1, t2, t3], [r1, r2, r3]
+        # two failing calls in a row / scattered (k = 2), on patterns whose later messages start with s
+        t4 = session("c07-pairs", FaultBudget=2, FaultKinds=["wbuf", "routbuf", "ralt"], PubLens=[32], InitPads=[False],
+                     Variants=["tr"], FixedEs=[True], TrafficMode="short", PatSet=["XN", "XX", "X1N"])
+        r4 = replay("C07", t4, seed, 1, threads=14)
+        tl, rl = [t1, t2, t3, t4], [r1, r2, r3, r4]
     else:
         tl, rl = [], []
         t3 = session("c07-latepsk", PskMode="only", LatePsk=True, FaultBudget=1, FaultKinds=["wbuf", "routbuf", "ralt"],
@@ -734,7 +741,13 @@ def c08(tier, seed):
         t3 = session("c08-missing-psk", PskMode="only", LatePsk=True, PubLens=[32], InitPads=[False], Variants=["tr"],
                      TrafficMode="short", PatSet=["NN", "XX", "IK", "N", "X1X1", "KX"])
         r3 = replay("C08", t3, seed, 1, threads=14)
+        t4 = session("c08-multipsk", Mismatches=["psk", "psk_max"], PskMode="all", PubLens=[32], InitPads=[True, False],
+                     Variants=["tr"], TrafficMode="short", PatSet=["N", "NN", "XX", "IK", "X1X1"])
+        r4 = replay("C08", t4, seed, 1, threads=14)
     else:
+        t4 = session("c08-multipsk", Mismatches=["psk", "psk_max"], PskMode="all", PubLens=[32], Variants=["tr"],
+                     TrafficMode="short")
+        r4 = replay("C08", t4, seed, 1, threads=14)
         t3 = session("c08-missing-psk", PskMode="only", LatePsk=True, PubLens=[32], InitPads=[False], Variants=["tr"],
                      TrafficMode="short")
         r3 = replay("C08", t3, seed, 1, threads=14)
@@ -743,7 +756,8 @@ def c08(tier, seed):
         t2 = session("c08-overwrite", OverwritePsk=True, PskMode="only", PubLens=[32], InitPads=[False], Variants=["tr"],
                      TrafficMode="short")
         r2 = replay("C08", t2, seed, 1, threads=14)
-    res = merge("model_checking", [t, t2, t3], [r, r2, r3], RULE_D1 +
+    res = merge("model_checking", [t, t2, t3, t4], [r, r2, r3, r4], RULE_D1 +
+                 "several PSKs of which the lowest or the highest differs; "
                  "a PSK that one side simply does not hold (never replaced by a default); "
                  "also: set_psk on an already filled slot at any time (wrong key later replaced by the right one, and the "
                  "reverse), outcome predicted by the model; "
